@@ -98,7 +98,7 @@ class C11:
                 # a deep chain of directories (node_modules-style nesting): depth is no reason to stop or fail
                 init.append({"p": x, "k": "d", "m": 0o755})
                 p = x
-                for lvl in range(rng.choice([33, 41, 64, 130])):
+                for lvl in range(rng.choice([33, 41, 64, 130] if tier == "thorough" else [41, 48])):
                     p = p + [b(b"n")]
                     init.append({"p": p, "k": "d", "m": 0o555 if rng.random() < 0.05 else 0o755})
                     if rng.random() < 0.1:
